@@ -93,6 +93,7 @@ def run(check):
     Q = Quant(check, types=(T,), other_types=(), conv=False, hash_=True)
     ub_obligations(check, units, Q, T)
     init_obligations(check, Q, T)
+    model_init_obligations(check, T)
 
 
 # ----------------------------------------------------------------------------------------------------------- lookups
@@ -576,6 +577,33 @@ def init_obligations(check, Q, T):
     free = Q.free_functions()
     if free:
         per_class['(free functions)'] = free
+    n, bad_total = run_init(check, low, per_class, T)
+    check.extra['init_functions_checked'] = n
+    if n < 2500:
+        check.error('must-fire: expected >= 2500 functions under the init obligations, got %d' % n)
+
+
+def defined_leaves(v):
+    """Leaves that must be determinate: the payload of an optional only counts when the optional is engaged on every path."""
+    from ..symex import TRUE
+    if isinstance(v, dict):
+        if set(v.keys()) == {'has', 'val'}:
+            return [v['has']] + (defined_leaves(v['val']) if v['has'] == TRUE else [])
+        out = []
+        for k in v:
+            out += defined_leaves(v[k])
+        return out
+    if isinstance(v, list):
+        out = []
+        for x in v:
+            out += defined_leaves(x)
+        return out
+    return [v]
+
+
+def run_init(check, low, per_class, T, cpp_name=None, includes=None):
+    n = 0
+    bad_total = 0
     for canon, fs in sorted(per_class.items()):
         ob = Ob('C20.init.%s' % canon.replace(' ', ''), 'REAL', canon, None)
         ob.backend = 'phqv symex (indeterminate-value tracking)'
@@ -620,28 +648,35 @@ def init_obligations(check, Q, T):
         check.add(ob)
         if bad:
             ctors = [f for f, w in bad if f.kind == 'ctor']
-            adjudicate_init(check, low, ob, (ctors or [bad[0][0]])[0], T)
-    check.extra['init_functions_checked'] = n
-    if n < 2500:
-        check.error('must-fire: expected >= 2500 functions under the init obligations, got %d' % n)
+            adjudicate_init(check, low, ob, (ctors or [bad[0][0]])[0], T, cpp_name=cpp_name, includes=includes)
+    return n, bad_total
 
 
-def defined_leaves(v):
-    """Leaves that must be determinate: the payload of an optional only counts when the optional is engaged on every path."""
-    from ..symex import TRUE
-    if isinstance(v, dict):
-        if set(v.keys()) == {'has', 'val'}:
-            return [v['has']] + (defined_leaves(v['val']) if v['has'] == TRUE else [])
-        out = []
-        for k in v:
-            out += defined_leaves(v[k])
-        return out
-    if isinstance(v, list):
-        out = []
-        for x in v:
-            out += defined_leaves(x)
-        return out
-    return [v]
+def model_init_obligations(check, T):
+    """The constitutive-model classes (their own translation unit): same indeterminate-value obligations."""
+    from .models_common import Models
+    from ..tu import MODELS
+    M = Models(check, types=(T,))
+    low = M.low
+    per_class = {}
+    for m in MODELS:
+        canon = M.canon(m, T)
+        if canon not in low.records:
+            check.error('C20: model %s not found' % canon)
+            continue
+        fs = []
+        for f in M.methods(canon):
+            if f.kind == 'ctor' and len(f.params) == 1:
+                continue
+            if (f.node.get('name') or '').startswith('~'):
+                continue
+            fs.append(f)
+        per_class[canon] = fs
+    n, bad = run_init(check, low, per_class, T, cpp_name=lambda canon: 'PhQ::ConstitutiveModel::' + canon,
+                      includes=lambda canon: ['PhQ/ConstitutiveModel/%s.hpp' % canon.split('<')[0]])
+    check.extra['model_init_functions_checked'] = n
+    if n < 60:
+        check.error('must-fire: expected >= 60 model functions under the init obligations, got %d' % n)
 
 
 def mentions_undef(t):
@@ -665,7 +700,7 @@ def brief(t):
     return s if len(s) < 120 else s[:117] + '...'
 
 
-def adjudicate_init(check, low, ob, f, T):
+def adjudicate_init(check, low, ob, f, T, cpp_name=None, includes=None):
     """Native: run the function twice on the same arguments with the destination / stack pre-filled with two different
     byte patterns; a result that depends on the pattern reads or keeps indeterminate memory."""
     rec = {'property': 'C20', 'obligation': ob.name, 'function': f.qualname, 'source': ob.loc, 'verifier_output': ob.detail}
@@ -673,7 +708,7 @@ def adjudicate_init(check, low, ob, f, T):
     try:
         if f.kind == 'ctor':
             canon = f.record
-            cpp_t = replay.cpp_record(low, canon)
+            cpp_t = cpp_name(canon) if cpp_name else replay.cpp_record(low, canon)
             args = []
             k = 0
             vals = [1.5, -2.5, 3.5, 4.5, -5.5, 6.5, 7.5, -8.5, 9.5, 10.5, 11.5, 12.5]
@@ -691,7 +726,7 @@ def adjudicate_init(check, low, ob, f, T):
                    '  alignas(16) unsigned char a[sizeof(%s)], b[sizeof(%s)];\n  std::memset(a, 0x11, sizeof a); std::memset(b, 0xEE, sizeof b);\n'
                    '  new (a) %s(%s); new (b) %s(%s);\n'
                    '  if (std::memcmp(a, b, sizeof a) != 0) { std::printf("MISMATCH: the constructed object depends on the previous contents of its storage\\n"); return 1; }\n  return 0;\n}\n') % (
-                       '>\n#include <'.join(default_includes(low, f)), decls, cpp_t, cpp_t, cpp_t, ', '.join(args), cpp_t, ', '.join(args))
+                       '>\n#include <'.join(includes(canon) if includes else default_includes(low, f)), decls, cpp_t, cpp_t, cpp_t, ', '.join(args), cpp_t, ', '.join(args))
             r, err = replay.build_and_run(cpp, os.path.join(check.work, 'replay'), 'r_' + re.sub(r'\W+', '_', ob.name)[:120])
             if err:
                 rec['replay_error'] = err[:800]
